@@ -20,9 +20,10 @@ var locksCache = map[*eng.Prog]*eng.Locks{}
 // Pre-publication functions (the object they build is not yet shared; each is
 // checked to be reachable only from its constructor by the entry-state
 // computation itself: any other caller would contribute an empty lock set):
-//   db.Open, db.openOrCreateKV, db.newKV         -- build the kv before *DB exists
-//   setec.NewStore (until the publication point), (*Store).initializeActive,
-//   (*Store).isActiveSetValid, (*Store).loadCache
+//
+//	db.Open, db.openOrCreateKV, db.newKV         -- build the kv before *DB exists
+//	setec.NewStore (until the publication point), (*Store).initializeActive,
+//	(*Store).isActiveSetValid, (*Store).loadCache
 func moduleLocks(c *eng.Ctx) *eng.Locks {
 	p := c.P
 	if l, ok := locksCache[p]; ok {
